@@ -364,12 +364,13 @@ fn stream_base(prop: &'static str, tier: Tier) -> BoxedStrategy<Case> {
         )
             .prop_map(Some),
     ];
-    // ~2% of the cases: one pattern of 513..1300 bytes (longer than typical
-    // internal block sizes) next to the short ones, in a stream of a few KB
-    // read in large chunks
+    // ~2% of the cases: one pattern of 513..1300 (sometimes 4097..9000) bytes
+    // (longer than typical internal block sizes) next to the short ones, in a
+    // stream of a few KB read in large chunks; half of them with a stretch of
+    // densely packed short matches in front of the long one
     let longpat = prop_oneof![
         49 => Just(None),
-        1 => (513usize..=1300, any::<u64>(), 0usize..=2500, 0usize..=1300, proptest::sample::select(vec![usize::MAX, 997, 2048, 4096, 700, 64])).prop_map(Some),
+        1 => (prop_oneof![3 => 513usize..=1300, 1 => 4097usize..=9000], any::<u64>(), 0usize..=2500, 0usize..=1300, proptest::sample::select(vec![usize::MAX, 997, 2048, 4096, 700, 64, 1500])).prop_map(Some),
     ];
     (cases, sched_strategy(), bigmode, longpat)
         .prop_map(|(mut case, sched, bigmode, longpat)| {
@@ -387,7 +388,18 @@ fn stream_base(prop: &'static str, tier: Tier) -> BoxedStrategy<Case> {
                 // stream: filler, short, filler(before), long, short, filler(after), short
                 let mut h = vec![b'-'; 40];
                 h.extend_from_slice(&short);
-                h.extend(std::iter::repeat(b'.').take(before));
+                if seed % 2 == 0 {
+                    h.extend(std::iter::repeat(b'.').take(before));
+                } else {
+                    // dense short matches: some occurrence straddles every
+                    // offset of this stretch (e.g. wherever a fill stopped);
+                    // long enough to reach past the long pattern's length
+                    let target = h.len() + before + if plen > 4096 { plen } else { 0 };
+                    while h.len() < target {
+                        h.extend_from_slice(&short);
+                        h.push(b'.');
+                    }
+                }
                 h.extend_from_slice(&long);
                 h.extend_from_slice(&short);
                 h.extend(std::iter::repeat(b'_').take(after));
